@@ -1007,12 +1007,12 @@ package server
 
 // what AofChannel.Push writes into the record of a hold (checked where the record is queued)
 //@ func (*AofChannel).Push
-//@   requires self != nil && lock != nil && lockCommand != nil && self.lockDb != nil
+//@   requires C07.args: self != nil && lock != nil && lockCommand != nil && self.lockDb != nil
 //@   requires C07.ctx: clockSane(self.lockDb) && lock.expriedTime >= 0 && lock.expriedTime < 0x10000000000 && lock.expriedTime - self.lockDb.currentTime <= ite(lockCommand.ExpriedFlag&0x0040 != 0, 0xffff * 60 + 1, 0x10000)
 //@   at call pushAofLock assert C07.record.content: aofLock.CommandType == commandType && aofLock.DbId == dbId && aofLock.LockId == lockCommand.LockId && aofLock.LockKey == lockCommand.LockKey && aofLock.ExpriedFlag == lockCommand.ExpriedFlag && aofLock.CommandTime == min(self.lockDb.currentTime, lock.expriedTime) && aofLock.ExpriedTime == persistedLife(lockCommand.ExpriedFlag, lockCommand.Expried, lock.expriedTime, aofLock.CommandTime)
 //@   at call pushAofLock assert C07.record.counts: implies(unLockCommand == nil, aofLock.Count == lockCommand.Count && aofLock.Rcount == ite(commandType == protocol.COMMAND_UNLOCK, 0, lockCommand.Rcount)) && implies(unLockCommand != nil, aofLock.Count == unLockCommand.Count && aofLock.Rcount == unLockCommand.Rcount)
 //@   at call pushAofLock assert C07.record.value: (aofLock.AofFlag&0x2000 != 0) == (!isnil(lockData) || aofFlag&0x2000 != 0) && implies(!isnil(lockData), aofLock.data == lockData) && aofLock.AofFlag&0x000f == aofFlag&0x000f
-//@   modifies all
+//@   modifies AofChannel.*, AofLockQueue.next, AofLockQueue.windex, AofLock.*, Aof.freeLockQueueIndex, PriorityMutex.*, E_Pserver_AofLock
 
 // a record and its value go to the same append file: the value is written right behind its record,
 // before the file can be rotated
